@@ -358,9 +358,14 @@ def get_bs_cached(method, cols, basis_dir='', verbose=False):
                 if verbose:
                     print("Loading deconvolution operator array from"
                           " file {:s}".format(bf))
-                # slice to size
                 # (loading might raise, so the method is remembered after it)
-                _D = np.load(bf)[:cols, :cols]
+                D = np.load(bf)
+                size = int(bf.split('_')[-1].split('.')[0])
+                if D.shape != (size, size):
+                    print('Incompatible deconvolution-operator file', bf)
+                    continue
+                # slice to size
+                _D = D[:cols, :cols]
                 _method = method
                 _source = 'file'
                 return _D
